@@ -2,7 +2,7 @@
 SPEC = dict(
     title="The batching queue is FIFO, lossless and batch-bounded",
     pkg="./queue", files=["queue/c24_verif_test.go"],
-    rule="quick: 9 hand-picked + 24 backpressure runs (capacity 1-2, stalling consumer, 2-8 writers in tight loops) + 40 oracle-only stress runs of 6-8 x 600 writes + 200 untimed runs (scripted single producer with consumer pausing, or 2-8 concurrent writers plus a flusher; "
+    rule="quick: 10 hand-picked + 20 stalled-consumer timed runs (consumer paused, full batch parked in sendCh, short batch times out meanwhile, consumer resumes, no further writes) + 24 backpressure runs (capacity 1-2, stalling consumer, 2-8 writers in tight loops) + 40 oracle-only stress runs of 6-8 x 600 writes + 200 untimed runs (scripted single producer with consumer pausing, or 2-8 concurrent writers plus a flusher; "
          "batch size 1-7, channel capacity 1-128, timeout 0 or 1 h) + 50 timed runs (timeout 0.5-4 ms, sleeps of 0.1-4 timeouts); thorough: 6000 + 1000 (+1500 backpressure, 600 stress). "
          "A run is non-trivial when it delivered at least one full batch (batch-size writes) and at least one short batch "
          "(cut by an explicit flush or by the timer); distinct by input and observed batch sizes",
